@@ -105,6 +105,8 @@ class AssertOutput(Kernel):
         runtime = isinstance(shape_src, SRec) and getattr(shape_src, "kind_", None) == "runtime_shape" and self.base_of(shape_src.f["of"]) is self.raw
         eng.oblige("post:second assertion compares tuple(RUN-TIME .shape of the not yet annotated factory output) with expr.shape", p,
                    z3.BoolVal(bool(runtime) and isinstance(c2.f.get("b"), SConc) and c2.f["b"].v == ("EXPR", "expr.shape") and self.base_of(x2) is self.raw), "post")
+        eng.oblige("post:the assertions form ONE chain ending in the graph output: the second assertion is applied to the result of the first (an assertion that is not an ancestor of the output is never emitted)", p,
+                   z3.BoolVal(getattr(x2, "kind_", None) == "asserted" and x2.f["of"] is self.raw and getattr(casts[0][0], "kind_", None) == "asserted" and casts[0][0].f["of"] is x2), "post")
         eng.oblige("post:the static-shape cast comes after both assertions and wraps the asserted value", p,
                    z3.BoolVal(casts[0][1] == 2 and getattr(casts[0][0], "kind_", None) == "asserted" and getattr(t, "kind_", None) == "cast" and t.f["of"] is casts[0][0]), "post")
 
